@@ -19,7 +19,9 @@ func (f *syntaxAggregateFunction) retrieve(
 		return err
 	}
 
-	result := values.result
+	// The pooled buffer is recycled after this call, so the function gets its own copy.
+	result := make([]interface{}, len(values.result))
+	copy(result, values.result)
 	if !f.param.isValueGroup() {
 		if arrayParam, ok := values.result[0].([]interface{}); ok {
 			result = arrayParam
